@@ -26,6 +26,13 @@ CHECKS = {
              technique="Coq proof (refinement of the pool machine to a pool-free spec under an invariant) + history differential", design="4 C14", note=PROOF_NOTE + " sync.Pool's choice is not controllable in the implementation; the theorem shows observations do not depend on it. Usage precondition: a handle is closed at most once and not used afterwards; nested results are used through their root."),
  "C15": dict(text="Theorem: for every schedule interleaving the API calls of any number of goroutines on one shared Decoder (each goroutine using its own result handles), every pool choice and capacity outcome, no call panics and each goroutine observes exactly what it would observe alone on its own inputs (corollary of C14's refinement + a projection lemma). One step = one API call; Get/Put atomic. Memory-level race freedom is not expressible in the model: supported by running 2..64 goroutines x GOMAXPROCS {1,2,16} x thousands of iterations in a -race binary, each read checked against the single-threaded value, and a logged prefix of each real schedule replayed on the model.",
              technique="Coq proof (schedule independence) + race-detector run with per-goroutine value oracle", design="4 C15", note=PROOF_NOTE + " Assumes sync.Pool linearizability and sync/atomic. Data-race freedom below API-call granularity rests on the Go race detector run only (stated in evidence)."),
+
+ "C04": dict(text="Theorems over a schema-generic interpreter that transcribes every Size and Marshal snippet of the templates (all kinds x singular/optional/required/packed/unpacked, maps, oneofs, nested and recursive messages, unknown fields) on top of the Encoder model: for EVERY well-formed schema and every message value that fits it, the program of encoder calls MarshalTo executes produces exactly Size() bytes, fills a buffer with exactly that much room exactly (no panic, no slack, nothing else touched), Marshal never panics and returns those bytes. Correspondence: the real plug-in built from /repo generates code for the feature-matrix corpus under 4 (thorough 8) option variants x 2 runtimes, which is compiled and run on ~17k values per run; Size/Marshal/MarshalTo outputs are compared byte for byte with the extracted model; the oracle checks len(Marshal)==Size, MarshalTo into 0xA5-filled exact buffers, no panic.",
+             technique="Coq proof (open-recursion induction over schema/value; per-snippet size=length lemmas lifted through the Encoder exactness theorem) + generate-compile-run differential", design="4 C04", note=PROOF_NOTE + " Extensions and Go states the wire cannot produce (nil list elements, nil map values) are outside the model and the corpus. Total message size < 2^31 assumed."),
+ "C05": dict(text="Theorem: for every well-formed schema and fitting value (well-formed unknown fields, no proto3 implicit float holding -0.0 = recorded finding G6), the bytes generated Marshal produces are decoded by the reference semantics (RefMsg.v, transcribed from the encoding spec: last-wins scalars, packed/unpacked lists, map entries with defaults, oneof, merge, unknown retention) into the original message with identical field presence, unknown fields preserved. Correspondence in two legs: generated code vs model (as C04), and RefMsg.v vs dynamicpb on ~33k byte strings per run; oracle: dynamicpb parse of every Marshal output rendered with Has() vs the original.",
+             technique="Coq proof (decode-of-encode by induction on nesting, field by field against the reference fold) + reference-vs-dynamicpb differential", design="4 C05", note=PROOF_NOTE + " dynamicpb/protobuf-go is the reference runtime. Enums are treated as open (values from the declared set for proto2)."),
+ "C17": dict(text="Theorems: generated Marshal returns the required-field error exactly when a required field of the message or of any message reachable through set fields, list elements, map values or oneof members is unset (empty message included); [unmarshal direction: see evidence]. Correspondence + oracle on every proto2 corpus type with required fields unset at every nesting position, both directions, vs proto.CheckInitialized / proto.Unmarshal of dynamicpb.",
+             technique="Coq proof (error iff requireds_set, by induction along the marshal traversal) + differential vs dynamicpb CheckInitialized", design="4 C17", note=PROOF_NOTE),
 }
 
 NOT_YET = {}
